@@ -55,4 +55,26 @@ example : getL (parseNode exDoc) ([(s "a", 1)].map renderStep) = .ok (some (.tex
 example : getL (parseNode exDoc) ([(s "a", 2)].map renderStep) = .ok none := by decide
 example : getL (parseNode exDoc) ([(s "b", 0), (s "c", 0), (s "a", 0)].map renderStep) = .ok none := by decide
 
+/-- **C18 (findall resolves).**  Every `(path, value)` pair `findall` returns — any expression
+(any list of steps: names, `*`, `**`, indexes, `text()` conditions, `..`), both `find_first`
+modes — resolves through `get` to that same value.  Tags of the document must be addressable
+(`goodV`: no `/`, no `[`). -/
+theorem C18_findall_resolves (findFirst : Bool) (root : XVal) (hg : goodV root = true)
+    (sought : List Str) (hs : List Hit) (h : findallL findFirst root sought = .ok (some hs)) :
+    ∀ p ∈ hs, getL root p.1 = .ok (some p.2) :=
+  findallL_resolves findFirst root hg sought hs h
+
+/-- the same for the string form of the expression -/
+theorem C18_findall_resolves_str (findFirst : Bool) (e : Elem) (hg : goodV (parseNode e) = true)
+    (xp : Str) (hs : List Hit) (h : findall findFirst (parseNode e) xp = .ok (some hs)) :
+    ∀ p ∈ hs, getL (parseNode e) p.1 = .ok (some p.2) :=
+  findallL_resolves findFirst (parseNode e) hg (xpSteps xp) hs h
+
+example : goodV (parseNode exDoc) = true := by decide
+example : findall false (parseNode exDoc) (s "**/a[text()!=z]/../c") =
+    .ok (some [([s "b", s "c"], .text none)]) := by decide +kernel
+example : findall false (parseNode exDoc) (s "a[*]") =
+    .ok (some [([s "a[0]"], .text (some (s "x"))), ([s "a[1]"], .text (some (s "z")))]) := by decide +kernel
+example : findall false (parseNode exDoc) (s "../a") = .ok none := by decide +kernel
+
 end N0.C18
